@@ -144,6 +144,33 @@ def run(ctx):
             if max(abs(float(a) - float(b)) for a, b in zip(sg, sref)) > 1e-9 * scv: viol('C05:subspace:values', f'singular values wrong for entries in the component subspace {mask}', inp, sg.tolist(), sref.tolist())
             if fro(utils.quat_matmat(utils.quat_matmat(U, diagq(sg, m, n)), utils.quat_hermitian(V)) - An) > 1e-9 * scv: viol('C05:subspace:reconstruct', f'A != U Sigma V^H for entries in the component subspace {mask}', inp)
             ctx.count(('subspace', mask, m, n), True)
+    # a column that is a right multiple / right combination of EARLIER columns, followed by an independent one (rank n - 1), tall, very
+    # tall, square and wide: the truncations up to the rank are determined (distinct non-zero values) -- values, orthonormal factors and
+    # the Eckart-Young error against an independent real embedding
+    for (m, n) in ((6, 3), (5, 3), (3, 3), (9, 4), (3, 5)) if ctx.quick() else ((6, 3), (5, 3), (3, 3), (9, 4), (3, 5), (7, 3), (8, 4), (10, 4), (4, 4), (12, 5)):
+        for dep in ('right-multiple', 'in-span'):
+            A = qx.rand_int(rng, m, n, -3, 3)
+            qm = Q(1, -1, 2, 0); q2 = Q(0, 1, 1, -1)
+            for i in range(m):
+                if dep == 'right-multiple' or n < 4: A[i][1] = A[i][0] * qm
+                else: A[i][2] = A[i][0] * qm + A[i][1] * q2
+            An = qx.to_np(A); r = min(m, n)
+            sref = np.linalg.svd(np.array([[float(v) for v in row] for row in rexp_ref(A)]), compute_uv=False)[::4][:r]
+            rk = sum(1 for v in sref if v > 1e-9 * max(1.0, float(sref[0])))
+            if rk < 2 or float(np.min(np.abs(np.diff(sref[:rk + 1] if rk < r else sref)))) < 1e-3 * float(sref[0]): ctx.cov['discarded'] += 1; continue
+            inp = {'shape': [m, n], 'class': f'dependent column ({dep}) before an independent one', 'rank': rk, 'A': [[[str(c) for c in a.t()] for a in row] for row in A]}
+            for R in range(1, rk + 1):
+                try: Ut, st, Vt = qsvd.classical_qsvd(An, R)
+                except Exception as e: viol('C05:dependent-column:raises', f'classical_qsvd raised {e!r} for R={R}', inp); continue
+                scv = float(sref[0])
+                if max(abs(float(a) - float(b)) for a, b in zip(st, sref[:R])) > 1e-9 * scv: viol('C05:dependent-column:values', f'leading {R} singular values are wrong for a matrix with a dependent column', dict(inp, R=R), np.asarray(st).tolist(), sref[:R].tolist())
+                eu = fro(utils.quat_matmat(utils.quat_hermitian(Ut), Ut) - utils.quat_eye(R)); ev = fro(utils.quat_matmat(utils.quat_hermitian(Vt), Vt) - utils.quat_eye(R))
+                if eu > 1e-8 or ev > 1e-8: viol('C05:dependent-column:orthonormal', f'the truncated factors do not have orthonormal columns (||U^H U - I|| = {eu:.2e}, ||V^H V - I|| = {ev:.2e}, R = {R})', dict(inp, R=R), (eu, ev))
+                S = np.zeros((R, R), dtype=np.quaternion)
+                for i in range(R): S[i, i] = quaternion.quaternion(float(st[i]), 0, 0, 0)
+                err2 = fro(An - utils.quat_matmat(utils.quat_matmat(Ut, S), utils.quat_hermitian(Vt))) ** 2; opt = float(sum(float(x) ** 2 for x in sref[R:]))
+                if abs(err2 - opt) > 1e-8 * scv * scv: viol('C05:dependent-column:eckart-young', f'rank-{R} truncation error^2 {err2:.3e} != sum of discarded s^2 {opt:.3e}', dict(inp, R=R), err2, opt)
+                ctx.count(('dependent-column', m, n, dep, R), True)
     res = cm.run_cases(ctx, 'cases_svd', HEADER, terms, 'check_svd', shard=40)
     if res is not None:
         ctx.cov['traces_validated_against_impl'] += len(res)
